@@ -41,6 +41,11 @@ pub enum OpK {
     IfAdd,
     /// If(const false) { Add(a,b) } else { Sub(a,b) }
     IfSub,
+    /// If(const true) { MatMul(a, Wt) } else { MatMul(a, We) } where Wt / We are
+    /// initializers LOCAL to the branch graphs (prepacked per subgraph)
+    IfMMThen,
+    /// same with a false condition
+    IfMMElse,
     /// RandomUniform-like source with no inputs (only used by C04); shape [2,2]
     Random,
 }
@@ -48,7 +53,7 @@ pub enum OpK {
 impl OpK {
     pub fn arity(self) -> usize {
         match self {
-            OpK::Relu | OpK::Identity | OpK::Transpose | OpK::Split => 1,
+            OpK::Relu | OpK::Identity | OpK::Transpose | OpK::Split | OpK::IfMMThen | OpK::IfMMElse => 1,
             OpK::Random => 0,
             _ => 2,
         }
@@ -69,13 +74,15 @@ impl OpK {
             OpK::Split => "Split",
             OpK::IfAdd => "IfAdd",
             OpK::IfSub => "IfSub",
+            OpK::IfMMThen => "IfMMThen",
+            OpK::IfMMElse => "IfMMElse",
             OpK::Random => "RandomUniform",
         }
     }
     pub fn from_name(s: &str) -> OpK {
         for k in [
             OpK::Relu, OpK::Identity, OpK::Transpose, OpK::Add, OpK::Sub, OpK::Mul, OpK::MatMul, OpK::Concat,
-            OpK::Split, OpK::IfAdd, OpK::IfSub, OpK::Random,
+            OpK::Split, OpK::IfAdd, OpK::IfSub, OpK::IfMMThen, OpK::IfMMElse, OpK::Random,
         ] {
             if k.name() == s {
                 return k;
@@ -163,6 +170,11 @@ pub fn const_value(i: usize) -> NArr {
         0 => NArr::new(&[2, 2], vec![1.0, -1.0, 2.0, 0.0]),
         _ => NArr::new(&[2, 2], vec![0.0, 3.0, -2.0, 1.0]),
     }
+}
+
+/// Branch-local weights of the IfMM operators.
+pub fn branch_weight(then_branch: bool) -> NArr {
+    if then_branch { NArr::new(&[2, 2], vec![1.0, 2.0, 3.0, 4.0]) } else { NArr::new(&[2, 2], vec![-1.0, 0.0, 2.0, -3.0]) }
 }
 
 /// Input fills ([2,2], small integers incl. 0 and negatives).
@@ -305,6 +317,8 @@ pub fn eval_op(kind: OpK, ins: &[NArr]) -> Result<Vec<NArr>, String> {
                 NArr { shape: vec![h, c], data: a.data[h * c..].to_vec() },
             ])
         }
+        OpK::IfMMThen => eval_op(OpK::MatMul, &[ins[0].clone(), branch_weight(true)]),
+        OpK::IfMMElse => eval_op(OpK::MatMul, &[ins[0].clone(), branch_weight(false)]),
         OpK::Random => Err("random has no reference value".into()),
     }
 }
@@ -393,6 +407,25 @@ pub fn to_onnx(p: &Prog, fixed_shapes: bool) -> Vec<u8> {
                 onnx::Node::new("If", &[cond], &outs_ref)
                     .attr("then_branch", onnx::Attr::Graph(then_g))
                     .attr("else_branch", onnx::Attr::Graph(else_g))
+            }
+            OpK::IfMMThen | OpK::IfMMElse => {
+                let cond = if op.kind == OpK::IfMMThen {
+                    need_true = true;
+                    "cond_true"
+                } else {
+                    need_false = true;
+                    "cond_false"
+                };
+                let mk = |name: &str, then_b: bool, out: &str| {
+                    let mut g = onnx::Graph::new(name);
+                    g.initializers.push(narr_tensor("w", &branch_weight(then_b)));
+                    g.nodes.push(onnx::Node::new("MatMul", &[&p.vname(op.ins[0]), "w"], &[out]).named(&format!("{name}_mm")));
+                    g.outputs.push(onnx::ValueInfo::untyped(out));
+                    g
+                };
+                onnx::Node::new("If", &[cond], &outs_ref)
+                    .attr("then_branch", onnx::Attr::Graph(mk(&format!("then{i}"), true, &format!("then_out{i}"))))
+                    .attr("else_branch", onnx::Attr::Graph(mk(&format!("else{i}"), false, &format!("else_out{i}"))))
             }
             OpK::Random => onnx::Node::new("RandomUniform", &[], &outs_ref)
                 .attr("shape", onnx::Attr::Ints(vec![2, 2]))
